@@ -1,4 +1,5 @@
 import sys
+import collections
 
 from datapackage import Package
 
@@ -28,6 +29,9 @@ def unstream(file=sys.stdin):
         descriptor = read()
         yield Package(descriptor)
         for _ in descriptor.get('resources', []):
-            yield res_reader()
+            reader = res_reader()
+            yield reader
+            # the next resource starts where this one ends, also when its reader stopped early
+            collections.deque(reader, maxlen=0)
 
     return func
